@@ -66,7 +66,7 @@ def fstring_tokens(flow, node: ast.AST):
 def run(ctx: Context) -> None:
     p = ctx.p
     ctx.rule('R17.1', "sign-magnitude: the parsed UTC offset passes through abs() before divmod / // / %", floor=1)
-    ctx.rule('R17.2', "writer within reader grammar: the offset is written as an explicit sign chosen by `offset < 0`, then two-digit zero padded non-negative hours, ':', two-digit minutes; the unit string is '<period> since %Y-%m-%d %H:%M:%S <offset>' with the epoch expressed in that same offset", floor=5)
+    ctx.rule('R17.2', "writer within reader grammar: the offset is written as an explicit sign chosen by `offset < 0`, then two-digit zero padded non-negative hours, ':', two-digit minutes; the unit string is '<period> since YYYY(zero padded)-%m-%d %H:%M:%S <offset>' with the epoch expressed in that same offset", floor=5)
     ctx.rule('R17.3', "the re-parse comparison dominates the return and its failure raises", floor=2)
     ctx.rule('R17.4', "to_netcdf_with_fixes works on a shallow copy, suppresses default fill values on the copy before writing, and rewrites the time units after the write and only when a time variable is given; the suppression never overrides an existing _FillValue", floor=7)
     ctx.rule('R17.5', "exception agreement: time_coordinate raises NoSuchCoordinateError and every handler around it names one of its ancestors; the save method forwards dataset, path and options; the time variable is discovered by its decoded units alone", floor=7)
@@ -108,16 +108,38 @@ def run(ctx: Context) -> None:
         units_tokens = fstring_tokens(flow, rets[0].value)
         ctx.need('R17.2', units_tokens is not None and len(units_tokens) >= 5, "the new unit string is an f-string", fi)
         lits = [t[1] for t in units_tokens if t[0] == 'lit']
-        fields = [t for t in units_tokens if t[0] == 'field']
-        ok_shape = (len(fields) == 3 and lits == [' since ', ' '] and units_tokens[0][0] == 'field' and units_tokens[-1][0] == 'field')
+        # '<period> since <epoch pieces> <offset>': the epoch may be written by several fields of one datetime
+        ok_shape = (len(units_tokens) >= 5 and units_tokens[0][0] == 'field' and units_tokens[1] == ('lit', ' since ') and units_tokens[-1][0] == 'field'
+                    and units_tokens[-2] == ('lit', ' ') and all(t[0] == 'field' or ' ' not in t[1] for t in units_tokens[2:-2]))
         ctx.check('R17.2', ok_shape, "unit string = '<period> since <epoch> <offset>'", fi, rets[0], construct=f"literal parts {lits}")
         if ok_shape:
-            period, epoch, offset = fields
+            period, offset = units_tokens[0], units_tokens[-1]
+            epoch_tokens = units_tokens[2:-2]
             pcv = flow.canon(period[1])
             ok_period = pcv[0] == 'unpack' and pcv[2] == (0,) and 'cftime' in repr(pcv[1]) and '_datesplit' in repr(pcv[1])
             ctx.check('R17.2', ok_period, "the period is the one split off the input unit string", fi, rets[0], construct=f"period = {norm_text(flow.resolve(period[1]))}")
-            ctx.check('R17.2', epoch[2] == '%Y-%m-%d %H:%M:%S', "the epoch is written as %Y-%m-%d %H:%M:%S", fi, rets[0],
-                      construct=f"epoch format {epoch[2]!r}")
+            # rendered epoch format: strftime specs as written, `<dt>.year:04d` as %Y4 (zero padded); bare %Y is NOT padded below year 1000
+            rendered = ''
+            owners = []
+            for t in epoch_tokens:
+                if t[0] == 'lit':
+                    rendered += t[1]
+                    continue
+                v = flow.resolve(t[1])
+                if isinstance(v, ast.Attribute) and v.attr == 'year' and t[2] in ('04d', '04', '0>4d', '0>4'):
+                    rendered += '%Y4'
+                    owners.append(v.value)
+                elif t[2] is not None and '%' in t[2]:
+                    rendered += t[2]
+                    owners.append(t[1])
+                else:
+                    rendered += '?'
+            ctx.check('R17.2', rendered == '%Y4-%m-%d %H:%M:%S', "the epoch is written as a four digit zero padded year, then -%m-%d %H:%M:%S (strftime %Y is not padded for years before 1000)", fi, rets[0],
+                      construct=f"epoch format {rendered!r}")
+            same_owner = bool(owners) and len({repr(flow.canon(o)) for o in owners}) == 1
+            ctx.check('R17.2', same_owner, "every piece of the epoch is taken from the same shifted reference instant", fi, rets[0],
+                      construct=f"epoch pieces from {sorted({norm_text(o) for o in owners})}")
+            epoch = ('field', owners[0] if owners else units_tokens[2][1], None)
             # epoch = reference.replace(tzinfo=UTC).astimezone(FixedOffset(offset_total))
             ev = flow.resolve(epoch[1])
             ok_epoch = False
@@ -348,7 +370,9 @@ VARIANTS = [
     V('C17', 'sign-from-hours', _U, "f'{offset_sign}{offset_hours:02d}:{offset_minutes:02d}'", "f'{offset_hours:+03d}:{offset_minutes:02d}'", 'R17.2'),
     V('C17', 'sign-inverted', _U, "offset_sign = '-' if offset_total < 0 else '+'", "offset_sign = '-' if offset_total > 0 else '+'", 'R17.2'),
     V('C17', 'epoch-not-shifted', _U, "    offset_datetime = reference_datetime.replace(tzinfo=pytz.UTC).astimezone(tzinfo)", "    offset_datetime = reference_datetime.replace(tzinfo=pytz.UTC)", 'R17.2'),
-    V('C17', 'epoch-T-separator', _U, "{offset_datetime:%Y-%m-%d %H:%M:%S}", "{offset_datetime:%Y-%m-%dT%H:%M:%S}", 'R17.2'),
+    V('C17', 'epoch-T-separator', _U, "{offset_datetime:%m-%d %H:%M:%S}", "{offset_datetime:%m-%dT%H:%M:%S}", 'R17.2'),
+    V('C17', 'year-by-strftime', _U, "{offset_datetime.year:04d}-{offset_datetime:%m-%d %H:%M:%S}", "{offset_datetime:%Y-%m-%d %H:%M:%S}", 'R17.2'),
+    V('C17', 'year-of-unshifted-epoch', _U, "{offset_datetime.year:04d}-{offset_datetime:%m-%d %H:%M:%S}", "{reference_datetime.year:04d}-{offset_datetime:%m-%d %H:%M:%S}", 'R17.2'),
     V('C17', 'reparse-check-removed', _U, "    if cftime.num2pydate(0, new_units, calendar) != reference_datetime:\n        raise ValueError(\n            \"New units does not resolve to the same reference time! \"\n            f\"Existing: {units!r}, new: {new_units!r}\"\n        )\n", "", 'R17.3'),
     V('C17', 'fill-after-write', _U, "    disable_default_fill_value(dataset)\n\n    dataset.to_netcdf(path, **kwargs)", "    dataset.to_netcdf(path, **kwargs)\n    disable_default_fill_value(dataset)", 'R17.4'),
     V('C17', 'no-copy', _U, "    dataset = dataset.copy(deep=False)\n", "", 'R17.4'),
